@@ -31,6 +31,10 @@ E2 twin check, exhaustive inside stated bounds.
    replay artefact (same driver) observe the same thing, and a byte that equals one pattern differs from the other.
  * Pointer leaves are dumped as (object, offset) codes; the address of (the inside of) a string literal is identified by
    the bytes it points to.
+ * Classification of failing cases: a case whose own feature signature matches a known finding is counted under it;
+   the others are grouped by (kind, deviation), up to six representatives with pairwise different feature sets per
+   group are shrunk in parallel to local minima, and each minimum's signature explains the group's cases whose
+   features contain the minimum's.  Wall-clock timeouts of single compiles are retried before they count.
  * Oracles: (1) static dump == automatic dump; (2) both == models/c05_init.py, judged only when gcc -O0 agrees with
    the model on every leaf of the case (otherwise oracle_disagreements, skipped).
 """
@@ -682,6 +686,8 @@ def run_cases(chibicc, wd, name, cases):
         sub = [cases[i] for i in live]
         r = twin.twin_run(ctx, wd, name, build_unit(sub), build_driver(sub), run_timeout=300)
         if r["status"] == "cc-fail":
+            if r["code"] == "timeout" and attempt < 2:
+                continue            # a loaded machine, not a verdict: compile the same batch again
             bad = find_ccfail(chibicc, wd, sub)
             if not bad:
                 raise core.HarnessError("chibicc fails on a batch but on none of its cases alone: %s" % r["stderr"][-500:])
@@ -745,17 +751,27 @@ def single_unit(c):
 
 
 def find_ccfail(chibicc, wd, cases):
+    """Single-case compiles of a batch that chibicc did not compile: [(index, status, stderr)].  A wall-clock timeout
+    is re-tried with a ten times longer limit before it is believed (a 2 ms job that times out is a loaded machine)."""
     bad = []
     p = os.path.join(wd, "one.c")
     for j, c in enumerate(cases):
         with open(p, "w") as f:
             f.write(single_unit(c))
-        stt, out, err = core.run_limited([chibicc, "-cc1", "-DPFX=cc_", "-cc1-input", p, "-cc1-output", os.path.join(wd, "one.s"), p],
-                                         cwd=wd, timeout=60)
+        for tmo in (60, 600):
+            stt, out, err = core.run_limited([chibicc, "-cc1", "-DPFX=cc_", "-cc1-input", p, "-cc1-output", os.path.join(wd, "one.s"), p],
+                                             cwd=wd, timeout=tmo)
+            if stt != "timeout":
+                break
         if stt != 0:
             bad.append((j, stt, err))
             continue
-        stt, out, err = core.run_limited(["as", "-o", os.path.join(wd, "one.o"), os.path.join(wd, "one.s")], cwd=wd, timeout=60)
+        for tmo in (60, 600):
+            stt, out, err = core.run_limited(["as", "-o", os.path.join(wd, "one.o"), os.path.join(wd, "one.s")], cwd=wd, timeout=tmo)
+            if stt != "timeout":
+                break
+        if stt == "timeout":
+            raise core.HarnessError("`as` does not finish on a single case within 600 s")
         if stt != 0:
             bad.append((j, "as", err))
     return bad
@@ -1155,7 +1171,10 @@ def run(ctx):
     deadline = ctx.deadline - reserve
     args = [(ctx.chibicc, os.path.join(ctx.work, "g%d" % g), g, groups[g], deadline) for g in order]
     # large groups first would need the counts; the pool balances dynamically instead
+    t_enum = time.time()
     results = core.pmap(work_types, args)
+    t_enum = time.time() - t_enum
+    t_cls = time.time()
     tot = {"cases": 0, "judged": 0, "nontrivial": 0, "undefined": 0, "refrej": 0, "dis": 0, "leaves": 0, "invalid": 0}
     flagcount = {}
     famcount = {}
@@ -1188,20 +1207,58 @@ def run(ctx):
         groups_.setdefault(f[0], []).append(f)
     nclasses = 0
     pending = {k: list(v) for k, v in groups_.items()}
+    # A failing case whose OWN feature signature already matches a known finding is counted under that finding without
+    # being shrunk (its minimum would carry the same features or belong to a smaller failing case that is in the list
+    # itself); only cases no finding accounts for are shrunk to a root-cause signature.
+    known_cache = {}
+    nprefiltered = 0
+    for k in sorted(pending):
+        keep = []
+        for f in pending[k]:
+            tf = type_features(f[1]) - {'nonint'}
+            sg = "C05|%s|%s|%s" % ("+".join(sorted(tf)) or "scalar", "+".join(f[6]) or "plain", k[1])
+            if sg not in known_cache:
+                known_cache[sg] = any(core.fnmatch.fnmatchcase(sg, pat) for pat in ctx.findings)
+            if known_cache[sg]:
+                ctx.violation(sg, "", None, None)
+                nprefiltered += 1
+            else:
+                keep.append(f)
+        if keep:
+            pending[k] = keep
+        else:
+            del pending[k]
     rnd = 0
+    NREP = 6        # representatives shrunk per group and round: the smallest unexplained case, then the next ones whose
+    #                 feature set contains none of the feature sets already chosen (a different root cause is likely)
     while pending and rnd < 40 and not ctx.out_of_time(reserve=20):
         rnd += 1
-        keys = sorted(pending)
-        reps = [(ctx.chibicc, os.path.join(ctx.work, "shr%d_%d" % (rnd, i)), pending[k][0][1], pending[k][0][2], pending[k][0][3],
-                 pending[k][0][4], k) for i, k in enumerate(keys)]
-        for k, rep, (cur, nr) in zip(keys, reps, core.pmap(shrink, reps)):
+        jobs = []
+        for k in sorted(pending):
+            chosen = []
+            for f in pending[k]:
+                ff = features(f[1], f[6])
+                if any(prev <= ff for prev in chosen):
+                    continue
+                chosen.append(ff)
+                jobs.append((k, f))
+                if len(chosen) >= NREP:
+                    break
+        reps = [(ctx.chibicc, os.path.join(ctx.work, "shr%d_%d" % (rnd, i)), f[1], f[2], f[3], f[4], k)
+                for i, (k, f) in enumerate(jobs)]
+        if os.environ.get("C05_DEBUG"):
+            print("round %d: pending %s jobs %d" % (rnd, {k: len(v) for k, v in pending.items()}, len(jobs)))
+        for (k, f0), (cur, nr) in zip(jobs, core.pmap(shrink, reps)):
+            if k not in pending or not any(f is f0 for f in pending[k]):
+                continue            # explained by a representative processed earlier in this round
             t2, tr2, tc2 = cur
             c = make_case(t2, has_flex(t2), tr2, tc2)
             fmin = features(c.ty, c.flags)
             expl = [f for f in pending[k] if fmin <= features(f[1], f[6])]
-            if pending[k][0] not in expl:
-                expl.append(pending[k][0])
-            pending[k] = [f for f in pending[k] if f not in expl]
+            if not any(f is f0 for f in expl):
+                expl.append(f0)
+            gone = set(id(f) for f in expl)
+            pending[k] = [f for f in pending[k] if id(f) not in gone]
             if not pending[k]:
                 del pending[k]
             kind, dev = k
@@ -1214,8 +1271,9 @@ def run(ctx):
                     decl_s, dev, exp, len(expl), M.decl(expl[-1][1], "s"), expl[-1][5][:100])
             else:
                 desc = "valid declaration `%s` -> %s; %d enumerated cases attributed" % (decl_s, dev, len(expl))
+            files = {"unit.c": single_unit(c), "driver.c": build_driver([c])}
             for _ in range(len(expl)):
-                ctx.violation(sig, desc, files={"unit.c": single_unit(c), "driver.c": build_driver([c])}, replay=REPLAY)
+                ctx.violation(sig, desc, files=files, replay=REPLAY)
     # cases left when the shrink rounds are used up keep their own (unshrunk) feature sets as signature
     for k in sorted(pending):
         for f in pending[k]:
@@ -1227,9 +1285,13 @@ def run(ctx):
             ctx.violation(sig, "failing case not shrunk (round limit): static %s = %s -> %s" % (M.decl(c.ty, "s"), c.text, k[1]),
                           files={"unit.c": single_unit(c), "driver.c": build_driver([c])}, replay=REPLAY)
 
+    import sys
+    print("[C05] phases: enumerate+run %.1f s, classify+shrink %.1f s (%d rounds)" % (t_enum, time.time() - t_cls, rnd), file=sys.stderr)
+    ctx.cover(shrink_rounds=rnd)
     ctx.cover(evaluations=tot["judged"], cases_generated=tot["cases"], types=len(uni), leaves_compared=tot["leaves"],
               distinct_nontrivial=tot["nontrivial"], skipped_undefined=tot["undefined"], ref_rejected=tot["refrej"],
               oracle_disagreements=tot["dis"], failing_cases=len(fails), failure_classes=nclasses,
+              failing_cases_known_by_own_signature=nprefiltered,
               form_counts=flagcount, family_counts=famcount,
               packed_pointer_offsets_mod8=sorted(pk_off), address_constant_forms=sum(len(v) for v in M.PTR_ATOMS.values()),
               stack_fill="every call of a case function is preceded by a fill of the 32 KiB below the caller's stack pointer; "
